@@ -427,6 +427,12 @@ func c17Runs(rt *rapid.T) *c17Case {
 		patch = "@@\nvar n identifier\nvar v expression\n@@\n-var n = v\n+var n = aVeryLongIdentifierNameThatGoesOnAndOnAndOnAndOnAndOn\n\n" +
 			"@@\nvar n identifier\n@@\n-var n = aVeryLongIdentifierNameThatGoesOnAndOnAndOnAndOnAndOn\n+func n() any { return 1 }\n"
 	}
+	if rapid.IntRange(0, 5).Draw(rt, "longOperand") == 0 {
+		// the same inside an expression: an operand becomes much longer,
+		// then something else
+		patch = "@@\n@@\n-compute\n+aVeryLongIdentifierNameThatGoesOnAndOnAndOnAndOnAndOnAndOnAndOnAndOn\n\n" +
+			"@@\n@@\n-aVeryLongIdentifierNameThatGoesOnAndOnAndOnAndOnAndOnAndOnAndOnAndOn\n+recompute()\n"
+	}
 	if rapid.Bool().Draw(rt, "alsoConst") {
 		patch += "\n@@\nvar n identifier\nvar v expression\n@@\n-const n = v\n+func n() any { return v }\n"
 	}
